@@ -28,10 +28,18 @@ var registry = map[string]checkDef{}
 // Register adds a monitor; level is the evidence level it claims.
 func Register(id, level string, fn CheckFn) { registry[id] = checkDef{level, fn} }
 
+var commands = map[string]func(args []string) int{}
+
+// RegisterCommand adds an auxiliary sub-command (e.g. a child process role).
+func RegisterCommand(name string, fn func(args []string) int) { commands[name] = fn }
+
 // Main dispatches os.Args.
 func Main() {
 	if len(os.Args) < 2 {
 		usage()
+	}
+	if fn, ok := commands[os.Args[1]]; ok {
+		os.Exit(fn(os.Args[2:]))
 	}
 	switch os.Args[1] {
 	case "racepost":
